@@ -73,3 +73,120 @@ Definition inner_bnd (ket bra : store) (ns : list id) : list wire :=
   flat_map (fun m => t_bnd ket m ++ t_bnd bra m) ns.
 Definition open_pairs (ket bra : store) (ns : list id) : list (wire * wire) :=
   map (fun m => (open_wire ket m, open_wire bra m)) ns.
+
+(* ---- an executable checker for wf_two, and the ket's tree read off the store ------------------------------ *)
+Definition opt_eqb (a b : option nat) : bool :=
+  match a, b with Some x, Some y => Nat.eqb x y | None, None => true | _, _ => false end.
+
+(* l is a rearrangement of the duplicate-free list cs *)
+Definition perm_of_nodupb (l cs : list nat) : bool :=
+  nodupb l && Nat.leb (length cs) (length l) && forallb (fun a => memb a cs) l.
+
+Definition node_okb (ket bra : store) (p : option id) (n : id) (cs : list id) : bool :=
+  match aget n (nodes ket), aget n (nodes bra) with
+  | Some kn, Some bn =>
+      opt_eqb (parent kn) p && opt_eqb (parent bn) p &&
+      list_eqb (children kn) cs && perm_of_nodupb (children bn) cs &&
+      nodupb (neighbouring_nodes kn) &&
+      list_eqb (t_axes ket n) (opt_list p (up_wire ket n) ++ map (up_wire ket) cs ++ [open_wire ket n]) &&
+      list_eqb (t_axes bra n) (opt_list p (up_wire bra n) ++ map (up_wire bra) (children bn) ++ [open_wire bra n]) &&
+      negb (Nat.eqb (open_wire ket n) (open_wire bra n))
+  | _, _ => false
+  end.
+
+Fixpoint wf_subb (ket bra : store) (p : option id) (t : rt) : bool :=
+  match t with RN n cs => node_okb ket bra p n (map rid cs) && forallb (wf_subb ket bra (Some n)) cs end.
+
+Definition wf_twob (ket bra : store) (t : rt) : bool :=
+  opt_eqb (root ket) (Some (rid t)) && opt_eqb (root bra) (Some (rid t)) && nodupb (rnodes t) && wf_subb ket bra None t.
+
+Fixpoint tree_of (fuel : nat) (s : store) (n : id) : option rt :=
+  match fuel with
+  | O => None
+  | S f => match aget n (nodes s) with
+           | Some nd => option_map (RN n) (all_some (map (tree_of f s) (children nd)))
+           | None => None
+           end
+  end.
+
+Definition ket_tree (s : store) : option rt :=
+  match root s with Some r => tree_of (S (length (nodes s))) s r | None => None end.
+
+(* per-instance check usable by a harness: the two stores form a consistent pair of states *)
+Definition two_ok (ket bra : store) : bool :=
+  match ket_tree ket with Some t => wf_twob ket bra t | None => false end.
+
+(* ==== three layers: <psi| O |psi> =========================================================================== *)
+(* the root step of expectation_value with the conjugated root tensor passed in (expectation_value unfolds
+   to this by computation, see ClosedProofs.expectation_value_root) *)
+Definition root_three (ckt kt ot : garr) (kn on : node) (blocks : list (id * garr)) : option garr :=
+  match all_to_ket kt kn blocks, equivalent_legs kn on None with
+  | Some knb, Some (state_legs, ham_legs) =>
+      let k := nvirt kn in
+      let block_legs := map (fun j => 2 * j + 1) (seq 0 k) ++ [0] in
+      match g_tensordot knb ot block_legs (ham_legs ++ [nvirt on + 1]) with
+      | Some khb => let sl := state_legs ++ [length state_legs] in g_tensordot ckt khb sl sl
+      | None => None
+      end
+  | _, _ => None
+  end.
+
+(* operator nodes have two open legs: (output, input) = the last two logical axes *)
+Definition out_wire (s : store) (n : id) : wire := last (removelast (t_axes s n)) 0.
+Definition in_wire (s : store) (n : id) : wire := last (t_axes s n) 0.
+
+Section WF3.
+  Variables (woff : nat) (ket op : store).
+
+  Definition node_ok3 (p : option id) (n : id) (cs : list id) : Prop :=
+    exists kn on,
+      aget n (nodes ket) = Some kn /\ aget n (nodes op) = Some on /\
+      parent kn = p /\ parent on = p /\
+      children kn = cs /\ Permutation (children on) cs /\
+      NoDup (neighbouring_nodes kn) /\
+      t_axes ket n = opt_list p (up_wire ket n) ++ map (up_wire ket) cs ++ [open_wire ket n] /\
+      t_axes op n = opt_list p (up_wire op n) ++ map (up_wire op) (children on) ++ [out_wire op n; in_wire op n] /\
+      open_wire ket n <> in_wire op n /\
+      out_wire op n <> woff + open_wire ket n.
+
+  Inductive wf_sub3 : option id -> rt -> Prop :=
+  | wf_sub3_intro p n cs :
+      node_ok3 p n (map rid cs) ->
+      (forall c, In c cs -> wf_sub3 (Some n) c) ->
+      wf_sub3 p (RN n cs).
+
+  Definition wf_three (t : rt) : Prop :=
+    root ket = Some (rid t) /\ root op = Some (rid t) /\ NoDup (rnodes t) /\ wf_sub3 None t.
+End WF3.
+
+Definition all_atoms3 (aoff : nat) (ket op : store) (ns : list id) : list nat :=
+  flat_map (fun m => t_atoms ket m ++ t_atoms op m ++ map (Nat.add aoff) (t_atoms ket m)) ns.
+Definition edge_wires3 (woff : nat) (ket op : store) (ns : list id) : list wire :=
+  flat_map (fun m => [up_wire ket m; up_wire op m; woff + up_wire ket m]) ns.
+Definition inner_bnd3 (woff : nat) (ket op : store) (ns : list id) : list wire :=
+  flat_map (fun m => t_bnd ket m ++ t_bnd op m ++ map (Nat.add woff) (t_bnd ket m)) ns.
+(* ket open leg with the operator's input leg, operator's output leg with the conjugate copy's open leg *)
+Definition open_pairs3 (woff : nat) (ket op : store) (ns : list id) : list (wire * wire) :=
+  flat_map (fun m => [(open_wire ket m, in_wire op m); (out_wire op m, woff + open_wire ket m)]) ns.
+
+Definition node_ok3b (woff : nat) (ket op : store) (p : option id) (n : id) (cs : list id) : bool :=
+  match aget n (nodes ket), aget n (nodes op) with
+  | Some kn, Some on =>
+      opt_eqb (parent kn) p && opt_eqb (parent on) p &&
+      list_eqb (children kn) cs && perm_of_nodupb (children on) cs &&
+      nodupb (neighbouring_nodes kn) &&
+      list_eqb (t_axes ket n) (opt_list p (up_wire ket n) ++ map (up_wire ket) cs ++ [open_wire ket n]) &&
+      list_eqb (t_axes op n) (opt_list p (up_wire op n) ++ map (up_wire op) (children on) ++ [out_wire op n; in_wire op n]) &&
+      negb (Nat.eqb (open_wire ket n) (in_wire op n)) &&
+      negb (Nat.eqb (out_wire op n) (woff + open_wire ket n))
+  | _, _ => false
+  end.
+
+Fixpoint wf_sub3b (woff : nat) (ket op : store) (p : option id) (t : rt) : bool :=
+  match t with RN n cs => node_ok3b woff ket op p n (map rid cs) && forallb (wf_sub3b woff ket op (Some n)) cs end.
+
+Definition wf_threeb (woff : nat) (ket op : store) (t : rt) : bool :=
+  opt_eqb (root ket) (Some (rid t)) && opt_eqb (root op) (Some (rid t)) && nodupb (rnodes t) && wf_sub3b woff ket op None t.
+
+Definition three_ok (woff : nat) (ket op : store) : bool :=
+  match ket_tree ket with Some t => wf_threeb woff ket op t | None => false end.
